@@ -454,14 +454,19 @@ def write_replay(pid, seed, payload):
   return p
 
 
-def write_evidence(pid, tier, seed, level, coverage, assumptions, wall, violations):
+def write_evidence(pid, tier, seed, level, coverage, assumptions, wall, violations, scratch=False):
   ensure_dirs()
   ev = dict(property_id=pid, tier=tier, seed=int(seed), level=level, coverage=coverage,
             assumptions=assumptions, wall_s=round(wall, 3), violations=int(violations))
-  tmp = os.path.join(EVIDENCE, '.%s.json.tmp' % pid)
+  # runs against a scratch copy of the repository or without the proof step are not evidence for /repo
+  d = EVIDENCE
+  if scratch or os.path.realpath(REPO) != '/repo':
+    d = os.path.join(BUILD, 'evidence_scratch')
+    os.makedirs(d, exist_ok=True)
+  tmp = os.path.join(d, '.%s.json.tmp' % pid)
   with open(tmp, 'w') as f:
     json.dump(ev, f, indent=1, default=repr)
-  os.replace(tmp, os.path.join(EVIDENCE, '%s.json' % pid))
+  os.replace(tmp, os.path.join(d, '%s.json' % pid))
 
 
 def canon(x):
